@@ -204,6 +204,19 @@ def js_async(bodies, idx):
     return "(async function(){ %s })" % " ".join(parts)
 
 
+# async-generator request queues, shapes the generator reaches rarely: return() on a generator that has not started / has completed,
+# followed at once by next(); expected order is the FIFO oracle of agen_program
+AGEN_FIXED = [
+    "async function* G(){ yield 1; } var it = G(); function req(i, p){ print('C' + i); p.then(function(v){ print('S' + i, v.done); }, function(){ print('S' + i, 'rej'); }); }"
+    " req(0, it['return'](Promise.resolve(1))); req(1, it.next()); print('main');",
+    "async function* G(){} var it = G(); var slow = new Promise(function(r){ Promise.resolve().then(function(){}).then(function(){ r('x'); }); });"
+    " function req(i, p){ print('C' + i); p.then(function(v){ print('S' + i, v.done); }, function(){ print('S' + i, 'rej'); }); }"
+    " req(0, it.next()); Promise.resolve().then(function(){ req(1, it['return'](slow)); req(2, it.next()); req(3, it.next()); });"
+    " Promise.resolve().then(function(){ print('t1'); }).then(function(){ print('t2'); }).then(function(){ print('t3'); }).then(function(){ print('t4'); }); print('main');",
+    "async function* G(){ yield 1; } var it = G(); function req(i, p){ print('C' + i); p.then(function(v){ print('S' + i, v.done); }, function(){ print('S' + i, 'rej'); }); return p; }"
+    " req(0, it.next()).then(function(){ req(1, it.next()); req(2, it['return'](Promise.resolve('y'))); req(3, it.next()); }); print('main');",
+]
+
 CORPUS_JS = [
     # ordering facts every engine agrees on (kept as engine-only self-consistency cases across scheduling modes)
     "var p = Promise.resolve(); p.then(function(){ print('a1'); }).then(function(){ print('a2'); }); p.then(function(){ print('b1'); }).then(function(){ print('b2'); }); print('main');",
@@ -213,6 +226,70 @@ CORPUS_JS = [
     "Promise.all([1, Promise.resolve(2), new Promise(function(r){ r(3); })]).then(function(v){ print('all', v.join()); }); Promise.race([new Promise(function(){}), Promise.reject(4)]).catch(function(e){ print('race', e); }); print('main');",
     "async function a(){ try { await Promise.reject(1); } catch (e) { print('caught', e); } finally { print('fin'); } return 2; } a().then(function(v){ print('a', v); }); (async function(){ for await (var v of [Promise.resolve(1), 2]) print('fa', v); })(); print('main');",
 ]
+
+
+def agen_program(r):
+    """an async generator and a random sequence of next / return / throw requests issued synchronously, from reaction
+    callbacks of earlier requests and from an independent chain. ORACLE (ECMA-262 27.6.3: AsyncGeneratorEnqueue appends to
+    [[AsyncGeneratorQueue]], AsyncGeneratorCompleteStep always removes its FIRST element): the result promises of one generator
+    settle in the order the requests were made, so the 'S<i>' lines appear in the order of the 'C<i>' lines"""
+    stmts = []
+    ny = r() % 4
+    for y in range(ny):
+        k = r() % 6
+        if k == 0:
+            stmts.append("await null;")
+        elif k == 1:
+            stmts.append("await slow;")
+        if r() % 5 == 0:
+            stmts.append("try { yield %d; } finally { %s }" % (y, ["await null;", "yield 'f%d';" % y, "print('fin%d');" % y][r() % 3]))
+        else:
+            stmts.append("yield %s;" % ["%d" % y, "Promise.resolve(%d)" % y, "slow"][r() % 3])
+    tail = r() % 4
+    if tail == 0:
+        stmts.append("throw 'boom';")
+    elif tail == 1:
+        stmts.append("return slow;")
+    elif tail == 2:
+        stmts.append("return 9;")
+    body = "async function* G(){ print('body'); %s }" % " ".join(stmts)
+    pre = ("var slow = new Promise(function(res){ Promise.resolve().then(function(){}).then(function(){}).then(function(){ res('x'); }); });"
+           "var it = G();"
+           "function req(i, kind, val){ print('C' + i); var p = kind === 0 ? it.next(val) : kind === 1 ? it['return'](val) : it['throw'](val);"
+           " p.then(function(v){ print('S' + i, v.done); }, function(e){ print('S' + i, 'rej'); }); return p; }")
+    nreq = 2 + r() % 5
+    calls = []
+    for i in range(nreq):
+        kind = [0, 0, 1, 1, 2][r() % 5]
+        val = ["1", "slow", "Promise.resolve(2)", "undefined"][r() % 4]
+        calls.append("req(%d, %d, %s)" % (i, kind, val))
+    main = []
+    i = 0
+    first = 1 + r() % min(3, nreq)
+    main.append(";".join(calls[:first]) + ";")
+    rest = calls[first:]
+    if rest:
+        where = r() % 3
+        if where == 0:      # an independent chain, one request per tick
+            main.append("Promise.resolve()" + "".join(".then(function(){ %s; })" % c for c in rest) + ";")
+        elif where == 1:    # from the reaction of the first request
+            main.append("var p0 = it.next(); p0.then(function(){ %s; });" % "; ".join(rest))
+        else:               # two ticks later, all at once
+            main.append("Promise.resolve().then(function(){}).then(function(){ %s; });" % "; ".join(rest))
+    main.append("Promise.resolve().then(function(){ print('t1'); }).then(function(){ print('t2'); }).then(function(){ print('t3'); }).then(function(){ print('t4'); });")
+    return body + pre + " ".join(main) + " print('main');"
+
+
+def fifo_violation(out):
+    """first request whose result promise settled out of request order (None if FIFO)"""
+    calls = [l[1:] for l in out if l.startswith("C")]
+    settled = [l.split()[0][1:] for l in out if l.startswith("S")]
+    want = [c for c in calls if c in settled]
+    if settled != want:
+        return "requests made in order %s, result promises settled in order %s" % (",".join(calls), ",".join(settled))
+    if len(settled) != len(calls):
+        return "requests %s made, only %s settled" % (",".join(calls), ",".join(settled))
+    return None
 
 
 def run(ck):
@@ -242,13 +319,18 @@ def run(ck):
         for m, n in modes:
             src.append("//// k%d.%s%d mode=%s n=%d" % (i, m, n, m, n))
             src.append(js)
+    agens = [agen_program(r) for _ in range(150 if quick else 3000)] + AGEN_FIXED
+    for i, js in enumerate(agens):
+        for m, n in modes:
+            src.append("//// a%d.%s%d mode=%s n=%d" % (i, m, n, m, n))
+            src.append(js)
     rc, out, err = ck.run_bin(bins["c16"], input="\n".join(src) + "\n")
     res = {}
     for l in out.splitlines():
         if l.startswith("{"):
             j = json.loads(l)
             res[j["id"]] = j
-    expected_n = (len(progs) + len(CORPUS_JS)) * len(modes)
+    expected_n = (len(progs) + len(CORPUS_JS) + len(agens)) * len(modes)
     if rc != 0 or len(res) != expected_n:
         ck.fail_input({"site": "engine-crash", "input": "c16 batch", "expected": "%d traces" % expected_n, "actual": "rc=%s got %d: %s" % (rc, len(res), err[-300:])})
     chunks = ["1,1,1", "2,3", "1", "4,4,4,4"]
@@ -288,6 +370,30 @@ def run(ck):
             if o and (o["out"] != base["out"] or o["completion"] != base["completion"]):
                 ck.fail_input({"site": "trace-depends-on-scheduling", "input": js, "mode": "%s n=%d" % (m, n), "expected": base["out"], "actual": o["out"],
                                "oracle": "the same script drained once, synchronously"})
+    agen_bad = 0
+    for i, js in enumerate(agens):
+        base = res.get("a%d.sync1" % i)
+        if not base:
+            continue
+        if not base["completion"].startswith("ok"):
+            ck.fail_input({"site": "engine-error", "input": js, "expected": "normal completion", "actual": base["completion"]})
+            agen_bad += 1
+            continue
+        v = fifo_violation(base["out"])
+        if v:
+            agen_bad += 1
+            ck.fail_input({"site": "async-generator-queue-not-fifo", "input": js, "expected": "the result promises of one async generator settle in request order", "actual": v,
+                           "trace": base["out"], "oracle": "ECMA-262 27.6.3.9 AsyncGeneratorEnqueue / 27.6.3.4 AsyncGeneratorCompleteStep: the queue is FIFO"})
+            continue
+        for m, n in modes[1:]:
+            o = res.get("a%d.%s%d" % (i, m, n))
+            if o and (o["out"] != base["out"] or o["completion"] != base["completion"]):
+                agen_bad += 1
+                ck.fail_input({"site": "trace-depends-on-scheduling", "input": js, "mode": "%s n=%d" % (m, n), "expected": base["out"], "actual": o["out"],
+                               "oracle": "the same script drained once, synchronously"})
+                break
+    ck.oblige("oracle:async-generator requests complete in FIFO order and independently of scheduling on %d generated request sequences" % len(agens),
+              "differential", agen_bad == 0, "%d programs" % agen_bad if agen_bad else None)
     ck.oblige("correspondence:engine trace == C16 model trace on %d generated promise programs (%d trace events), identical across %d scheduling modes"
               % (len(progs), jobs_total, len(modes)), "correspondence", drift == 0, "%d programs where the model did not finish" % drift if drift else None)
     ck.coverage.update({
@@ -299,5 +405,7 @@ def run(ck):
         "modes": ["%s n=%d" % m for m in modes],
         "trace_events": jobs_total,
         "samples": [progs[0][1][:700]],
-        "partial": ["async generators, Promise combinators and user thenables: scheduling-independence only (6 fixed programs), not modelled"],
+        "async_generator_request_sequences": len(agens),
+        "partial": ["async generators are not in the Lean model: their request queue is checked against the FIFO oracle of ECMA-262 27.6.3 on generated request sequences; "
+                    "Promise combinators and user thenables: scheduling-independence only (fixed programs)"],
     })
